@@ -10,6 +10,13 @@ def sortVS (l : List VS) : List VS :=
 
 def fmtVS (l : List VS) : String := " ".intercalate ((sortVS l).map fun p => s!"{p.view}:{p.seg}")
 
+def sortVST (l : List (VS × Int)) : List (VS × Int) :=
+  (l.toArray.qsort fun a b =>
+    a.1.view < b.1.view || (a.1.view == b.1.view && (a.1.seg < b.1.seg || (a.1.seg == b.1.seg && a.2 < b.2)))).toList
+
+def fmtVST (l : List (VS × Int)) : String :=
+  if l.isEmpty then "-" else " ".intercalate ((sortVST l).map fun p => s!"{p.1.view}:{p.1.seg}:{p.2}")
+
 def chunksAux (n : Nat) : Nat → List Nat → List (List Nat)
   | 0, _ => []
   | _, [] => []
@@ -33,6 +40,27 @@ def stepLine (y : Sym) (line : String) : Sym × String :=
   | ["subset", i, n, mins, maxs, mint, maxt] =>
     (y, fmtVS (processed y 0 (y.V - 1) (I mins) (I maxs) (I mint) (I maxt) (N i) (N n)))
   | ["balanced", n, maxs] => (y, b2s (balanced y 0 (y.V - 1) (I maxs) (N n)))
+  | ["cfgtrivial", v] =>
+    -- TrivialDataSymmetriesForBins: no symmetries
+    ({ V := I v, d90 := false, d180 := false, swapSeg := false }, "eff 0 0 0")
+  | ["balancedsu", n, req, dmax, uss] =>
+    match balancedAfterSetUp y 0 (y.V - 1) (I req) (I dmax) (N n) (uss == "1") with
+    | none => (y, "err")
+    | some (b, m) => (y, s!"{b2s b} {m}")
+  | ["bp", i, n, mins, maxs, mint, maxt] =>
+    (y, fmtVST (projected y 0 (y.V - 1) (I mins) (I maxs) (I mint) (I maxt) (N i) (N n)))
+  | ["fp", i, n, mins, maxs, mint, maxt] =>
+    (y, fmtVST (projected y 0 (y.V - 1) (I mins) (I maxs) (I mint) (I maxt) (N i) (N n)))
+  | "recon" :: n :: ss :: s0 :: rnd :: nsub :: chk :: uss :: maxs :: draws =>
+    let n' := N n
+    let bal := chk != "1" || balanced y 0 (y.V - 1) (I maxs) n'
+    if !reconSetUpOk (I n) (I ss) (I s0) (I nsub) (uss == "1") bal then (y, "err")
+    else
+      let d := (draws.map N).toArray
+      let seq := reconSchedule n' (N ss) (rnd == "1") (N s0) (N nsub) (fun j => d.getD j 0)
+      if seq.any (·.isNone) then (y, "ub")
+      else if seq.isEmpty then (y, "-")
+      else (y, " ".intercalate (seq.map fun o => toString (o.getD 0)))
   | "sched" :: n :: start :: rnd :: iters :: draws =>
     let n' := N n
     let seq : List Nat :=
